@@ -67,7 +67,22 @@ impl<C: GCWorkContext> GCWork<C::VM> for Prepare<C> {
         }
 
         for w in &mmtk.scheduler.worker_group.workers_shared {
+            #[cfg(not(mmtk_verif))]
             let result = w.designated_work.push(Box::new(PrepareCollector));
+            #[cfg(mmtk_verif)]
+            let result = {
+                use crate::util::verif::rt;
+                let b: Box<dyn GCWork<C::VM>> = Box::new(PrepareCollector);
+                rt::event_str(rt::ev::PACKET_ADD, rt::ev::STAGE_DESIGNATED, b.get_type_name());
+                rt::event(
+                    rt::ev::PACKET_ADD,
+                    rt::ev::STAGE_DESIGNATED,
+                    0,
+                    b.as_ref() as *const dyn GCWork<C::VM> as *const u8 as usize,
+                );
+                rt::yield_point(rt::site::SCHED_DESIGNATED);
+                w.designated_work.push(b)
+            };
             debug_assert!(result.is_ok());
         }
     }
@@ -145,7 +160,22 @@ impl<C: GCWorkContext + 'static> GCWork<C::VM> for Release<C> {
         mmtk.scheduler.work_buckets[WorkBucketStage::Release].bulk_add(release_mutator_packets);
 
         for w in &mmtk.scheduler.worker_group.workers_shared {
+            #[cfg(not(mmtk_verif))]
             let result = w.designated_work.push(Box::new(ReleaseCollector));
+            #[cfg(mmtk_verif)]
+            let result = {
+                use crate::util::verif::rt;
+                let b: Box<dyn GCWork<C::VM>> = Box::new(ReleaseCollector);
+                rt::event_str(rt::ev::PACKET_ADD, rt::ev::STAGE_DESIGNATED, b.get_type_name());
+                rt::event(
+                    rt::ev::PACKET_ADD,
+                    rt::ev::STAGE_DESIGNATED,
+                    0,
+                    b.as_ref() as *const dyn GCWork<C::VM> as *const u8 as usize,
+                );
+                rt::yield_point(rt::site::SCHED_DESIGNATED);
+                w.designated_work.push(b)
+            };
             debug_assert!(result.is_ok());
         }
     }
